@@ -17,8 +17,8 @@ def sel(label, props, tier_consts, invariants, timeout=900, **kw):
                 invariants=invariants, timeout=timeout, **kw)
 
 
-def SEL(maxlen, scope, docset, funcs=False, spell='canon'):
-    return dict(MaxLen=maxlen, Scope=scope, WithFuncs=funcs, Spellings=spell, DocSet=docset)
+def SEL(maxlen, scope, docset, funcs=False, spell='canon', fset='full'):
+    return dict(MaxLen=maxlen, Scope=scope, WithFuncs=funcs, Spellings=spell, DocSet=docset, FuncSet=fset)
 
 
 # stage lists per property and tier ------------------------------------------------------------
@@ -41,14 +41,52 @@ def simple_sel(prop, laws=()):
     return f
 
 
+def c14(tier):
+    if tier == 'quick':
+        return [sel('funcs', 'C14', SEL(2, 'triples', 'small', funcs=True, fset='small'), ['Emit'])]
+    return [sel('funcs', 'C14', SEL(2, 'triples', 'full', funcs=True), ['Emit'], timeout=1800),
+            sel('funcs-pairs', 'C14', SEL(2, 'pairs', 'small', funcs=True), ['Emit'], timeout=3600)]
+
+
+def c12(tier):
+    if tier == 'quick':
+        return [sel('funcs', 'C12', SEL(2, 'triples', 'small', funcs=True, fset='small'), ['Emit'])]
+    return [sel('funcs', 'C12', SEL(2, 'triples', 'full', funcs=True), ['Emit'], timeout=3600),
+            sel('pairs', 'C12', SEL(2, 'pairs', 'full'), ['Emit'], timeout=3600)]
+
+
+def c18(tier):
+    if tier == 'quick':
+        return [sel('spellings', 'C18', SEL(2, 'triples', 'small', spell='all'), ['Emit'])]
+    return [sel('spellings', 'C18', SEL(2, 'pairs', 'small', spell='all'), ['Emit'], timeout=3600),
+            sel('spellings-funcs', 'C18', SEL(2, 'triples', 'full', funcs=True, spell='all'), ['Emit'], timeout=3600)]
+
+
+def c11(tier):
+    inv = ['LawMech', 'LawIndex', 'Emit']
+    o = 'alias=C11,allspell=1'
+    if tier == 'quick':
+        return [dict(kind='gen', module='Gen_Slice', label='slices', props='C01,C03', opts=o, timeout=600,
+                     constants=dict(Rng=7, MaxN=6, Bigs=True, Forms='plain'), invariants=inv),
+                dict(kind='gen', module='Gen_Slice', label='forms', props='C01,C03', opts=o, timeout=600,
+                     constants=dict(Rng=3, MaxN=4, Bigs=True, Forms='all'), invariants=inv)]
+    return [dict(kind='gen', module='Gen_Slice', label='slices-all-forms', props='C01,C03', opts=o, timeout=3600,
+                 constants=dict(Rng=7, MaxN=6, Bigs=True, Forms='all'), invariants=inv),
+            dict(kind='gen', module='Gen_Slice', label='wide', props='C01,C03', opts=o, timeout=3600,
+                 constants=dict(Rng=12, MaxN=9, Bigs=True, Forms='plain'), invariants=inv)]
+
+
 CHECKS = {
     'C01': dict(stages=c01, level='model_checking'),
     'C03': dict(stages=simple_sel('C03', ['LawFailsIffEmpty']), level='model_checking'),
     'C04': dict(stages=simple_sel('C04'), level='model_checking'),
     'C08': dict(stages=simple_sel('C08', ['LawCompose']), level='model_checking'),
-    'C12': dict(stages=simple_sel('C12'), level='model_checking'),
+    'C11': dict(stages=c11, level='model_checking'),
+    'C12': dict(stages=c12, level='model_checking'),
     'C13': dict(stages=simple_sel('C13', ['LawLocs']), level='model_checking'),
+    'C14': dict(stages=c14, level='model_checking'),
     'C15': dict(stages=simple_sel('C15'), level='model_checking'),
+    'C18': dict(stages=c18, level='model_checking'),
 }
 
 
@@ -85,7 +123,7 @@ def run(pid, tier, sdir, t0):
                     known_hits.append((k, v))
                 else:
                     viol.append(v)
-            if ts['distinct'] and not st.get('simulate') and summ['cases'] != ts['distinct'] and not st.get('max_cases'):
+            if ts['distinct'] and not st.get('simulate') and summ['cases'] not in (ts['distinct'], ts['distinct'] - ts['init']) and not st.get('max_cases'):
                 raise Infra('replayer saw %d cases but TLC found %d distinct states (%s)' % (summ['cases'], ts['distinct'], st['label']))
         elif st['kind'] == 'tlc':
             log('[%s/%s] stage %s: TLC %s (model only)' % (pid, tier, st['label'], st['module']))
